@@ -329,11 +329,98 @@ fn many_segments_case(n: usize, with_checkpoint: bool) -> Option<(String, String
     None
 }
 
+/// Recovery as the server does it (StreamingIntegration::recover into a real node) of a store holding a checkpoint and
+/// `n_deltas` updates behind it: the checkpoint's key `acct` is overwritten by the FIRST delta, deleted key `gone` is
+/// deleted by the second; the rest are fresh keys. The node must end up holding the merge, however many deltas there are.
+fn integration_recover_case(n_deltas: usize, segments: usize) -> Option<(String, String)> {
+    use redis_sim::redis::SDS;
+    use redis_sim::replication::lattice::{LamportClock, ReplicaId};
+    use redis_sim::replication::state::ReplicatedValue;
+    use redis_sim::streaming::{CheckpointInfo, CheckpointWriter, Compression, Manifest, ManifestManager, SegmentInfo, StreamingConfig, StreamingIntegration};
+    let r1 = ReplicaId::new(1);
+    let val = |s: &str, t: u64| ReplicatedValue::with_value(SDS::from_str(s), LamportClock { time: t, replica_id: r1 });
+    let tomb = |t: u64| {
+        let mut v = ReplicatedValue::new(r1);
+        let mut c = LamportClock { time: t - 1, replica_id: r1 };
+        v.delete(&mut c);
+        v
+    };
+    let store = VObjStore::new();
+    let mut manifest = Manifest::new(1);
+    let cp_state: HashMap<String, ReplicatedValue> = [("acct".to_string(), val("balance=100", 1)), ("gone".to_string(), val("x", 1)), ("kept".to_string(), val("k", 1))].into_iter().collect();
+    let bytes = CheckpointWriter::new(Compression::None).write(cp_state.clone(), 1_000, 0).expect("checkpoint");
+    let cp_key = format!("{PREFIX}/checkpoints/chk-0.chk");
+    block_on(redis_sim::streaming::ObjectStore::put(&store, &cp_key, &bytes)).unwrap();
+    manifest.checkpoint = Some(CheckpointInfo { key: cp_key, timestamp_ms: 1_000, key_count: 3, last_segment_id: 0 });
+    manifest.next_segment_id = 1;
+    let mut deltas: Vec<ReplicationDelta> = vec![ReplicationDelta::new("acct".into(), val("balance=250", 2), r1), ReplicationDelta::new("gone".into(), tomb(3), r1)];
+    for i in deltas.len()..n_deltas {
+        deltas.push(ReplicationDelta::new(format!("f{i:05}"), val("v", 10 + i as u64), r1));
+    }
+    let per = deltas.len().div_ceil(segments.max(1));
+    for (si, chunk) in deltas.chunks(per.max(1)).enumerate() {
+        let id = si as u64 + 1;
+        let b = segment_bytes(chunk);
+        let key = format!("{PREFIX}/segments/segment-{:08}.seg", id);
+        block_on(redis_sim::streaming::ObjectStore::put(&store, &key, &b)).unwrap();
+        manifest.add_segment(SegmentInfo { id, key, record_count: chunk.len() as u32, size_bytes: b.len() as u64, min_timestamp: chunk.iter().map(|d| d.value.timestamp.time).min().unwrap_or(0), max_timestamp: chunk.iter().map(|d| d.value.timestamp.time).max().unwrap_or(0) });
+        manifest.next_segment_id = id + 1;
+    }
+    block_on(ManifestManager::new(store.clone(), PREFIX).save(&manifest)).expect("manifest");
+    let mut want: Fold = cp_state.into_iter().collect();
+    for d in &deltas {
+        fold_into(&mut want, d);
+    }
+    let desc = format!("checkpoint {{acct=balance=100@1, gone=x@1, kept=k@1}} + {n_deltas} updates in {segments} segment(s) behind it (the first overwrites acct, the second deletes gone), recovered through StreamingIntegration::recover into a fresh node");
+    let rt = tokio::runtime::Builder::new_current_thread().enable_time().start_paused(true).build().unwrap();
+    rt.block_on(async {
+        let mut cfg = StreamingConfig::test();
+        cfg.prefix = PREFIX.to_string();
+        let integ = StreamingIntegration::with_store(std::sync::Arc::new(store.clone()), cfg, 1);
+        let node = ReplicatedShardedState::new(ReplicationConfig { enabled: true, replica_id: 9, ..Default::default() });
+        if let Err(e) = integ.recover(&node).await {
+            return Some(("integration-recover error".to_string(), format!("{desc}: {e}")));
+        }
+        // the shard actors apply what they were sent in the background: wait until nothing changes any more
+        let mut got = projection(&node.snapshot_state().await.into_iter().collect());
+        for _ in 0..50 {
+            tokio::time::sleep(std::time::Duration::from_millis(10)).await;
+            let again = projection(&node.snapshot_state().await.into_iter().collect());
+            if again == got {
+                break;
+            }
+            got = again;
+        }
+        let pw = projection(&want);
+        if got != pw {
+            let k = pw.keys().chain(got.keys()).find(|k| got.get(*k) != pw.get(*k)).unwrap();
+            return Some((
+                format!("integration-recover node-state!=merge {}", if pw.get(k).map(|v| v.contains("DEL")).unwrap_or(false) { "deleted-key" } else if k == "acct" { "checkpoint-key-overwritten-by-a-delta" } else { "other-key" }),
+                format!("{desc}: key {k}: the node holds {:?}, the merge of everything persisted is {:?}", got.get(k), pw.get(k)),
+            ));
+        }
+        None
+    })
+}
+
 fn main() {
     let args = cli::parse_args();
     vh::quiet_panics();
     if let Some(path) = &args.replay {
         let r = vh::report::load_replay(path);
+        if r["integration_recover"] == json!(true) {
+            match integration_recover_case(r["n"].as_u64().unwrap() as usize, r["segments"].as_u64().unwrap() as usize) {
+                Some((sig, detail)) => {
+                    println!("{sig}: {detail}");
+                    println!("VIOLATION property=C11 replay={}", path.display());
+                    std::process::exit(1);
+                }
+                None => {
+                    println!("replay: no violation");
+                    std::process::exit(0);
+                }
+            }
+        }
         if r["many_segments"] == json!(true) {
             match many_segments_case(r["n"].as_u64().unwrap() as usize, r["checkpoint"].as_bool().unwrap_or(false)) {
                 Some((sig, detail)) => {
@@ -416,6 +503,19 @@ fn main() {
             }
         }
     }
+    // recovery as the server does it, with a checkpoint and up to thousands of updates behind it
+    let integ_items: Vec<(usize, usize)> = [2usize, 3, 100, 255, 256, 257, 1023, 1024, 1025, 4095, 4096, 4097, 6001, 8193].iter().flat_map(|n| [(*n, 1usize), (*n, 3)]).collect();
+    let integ_res = par::par_map(&integ_items, |_, (n, segs)| std::panic::catch_unwind(|| integration_recover_case(*n, *segs)).unwrap_or_else(|p| Some(("integration-recover panic".to_string(), vh::panic_text(&p)))));
+    {
+        let mut seen = BTreeSet::new();
+        for ((n, segs), r) in integ_items.iter().zip(integ_res) {
+            if let Some((sig, detail)) = r {
+                if seen.insert(sig.clone()) {
+                    rep.violation(sig, detail, json!({"integration_recover": true, "n": n, "segments": segs}));
+                }
+            }
+        }
+    }
     let sample = Case { updates: usable[usable.len() / 2].clone(), place: place_cache[usable[usable.len() / 2].len()].last().unwrap().clone(), dup: None };
     let coverage = json!({
         "evaluations": cases_n.load(Ordering::Relaxed),
@@ -424,6 +524,8 @@ fn main() {
         "update_sets": sets.len(),
         "update_sets_excluded_order_dependent_merge": excluded,
         "cases": cases_n.load(Ordering::Relaxed),
+        "integration_recover_cases": integ_items.len(),
+        "integration_recover_rule": "a checkpoint of three keys plus n updates behind it (n around every power of two up to 8193, in 1 or 3 segments; the first update overwrites a checkpoint key, the second deletes one) recovered through StreamingIntegration::recover into a real node: the node's replication state must be the merge of everything persisted",
         "many_segment_cases": many.len(),
         "many_segment_rule": "n segments for every n in 1..=40 and the neighbours of 64, 128, 256, without and behind a checkpoint; segment i holds a key of its own and a new value of a shared key: recover() and recover_with_wal() must return every key and the shared key's newest value",
         "cases_applied_to_a_real_node": node_n.load(Ordering::Relaxed),
